@@ -86,7 +86,19 @@ def run_check(cid: str, tier: str, seed: int, jobs: int | None = None) -> int:
     rnd.shuffle(order)
     units = [units[i] for i in order]
     jobs = jobs or int(os.environ.get("VERIF_JOBS", "0")) or min(16, os.cpu_count() or 1)
-    if getattr(check, "serial", False) or jobs == 1 or len(units) == 1:
+    main_units = [u for u in units if isinstance(u, dict) and u.get("_main")]
+    units = [u for u in units if not (isinstance(u, dict) and u.get("_main"))]
+    pre_results = []
+    if main_units:
+        # these units parallelise themselves (e.g. a BFS with one global seen-set): run them in this process
+        _init(cid, tier)
+        import gc as _gc
+
+        pre_results = [_work(u) for u in main_units]
+        _gc.enable()
+    if not units:
+        results = []
+    elif getattr(check, "serial", False) or jobs == 1 or len(units) == 1:
         _init(cid, tier)
         results = [_work(u) for u in units]
     else:
@@ -95,6 +107,8 @@ def run_check(cid: str, tier: str, seed: int, jobs: int | None = None) -> int:
         with ctx.Pool(jobs, initializer=_init, initargs=(cid, tier)) as pool:
             results = list(pool.imap_unordered(_work, units, chunksize=chunk))
 
+    results = pre_results + results
+    n_units = len(units) + len(main_units)
     tot = {k: 0 for k in ("evaluations", "transitions", "states", "distinct", "nontrivial")}
     outcomes: dict[str, int] = {}
     violations: list[dict] = []
@@ -174,7 +188,7 @@ def run_check(cid: str, tier: str, seed: int, jobs: int | None = None) -> int:
             "transitions": tot["transitions"],
             "traces_validated_against_impl": tot["evaluations"] if check.engine != "E2" else tot["transitions"],
             "exhaustive": exhaustive,
-            "units": len(units),
+            "units": n_units,
             "units_capped": capped,
             "distinct_traces": tot["distinct"],
             "outcomes": outcomes,
@@ -194,7 +208,7 @@ def run_check(cid: str, tier: str, seed: int, jobs: int | None = None) -> int:
     for ln in lines:
         print(ln)
     print(
-        f"{cid} tier={tier} seed={seed} units={len(units)} executions={tot['evaluations']} "
+        f"{cid} tier={tier} seed={seed} units={n_units} executions={tot['evaluations']} "
         f"states={tot['states']} transitions={tot['transitions']} distinct_traces={tot['distinct']} "
         f"outcomes={outcomes} capped_units={capped} violations={new_viol} violating_keys={keyhist} wall={wall:.1f}s"
     )
